@@ -330,6 +330,26 @@ def explore_schedules(harness, bound, max_exec=None, on_exec=None, horizon=5000,
     return stats
 
 
+def replay(harness, case, line_root=None, after_calls=False, horizon=5000):
+    """Re-run one recorded schedule the way it was explored: at the recorded granularity and, for line-level schedules,
+    after the same uncounted warm-up execution (the point numbering of a cold process differs).  Returns (sched, outcome)."""
+    if case.get("line_level") and line_root is None:
+        import os
+        import canopen
+        line_root = os.path.dirname(os.path.abspath(canopen.__file__))
+    if line_root:
+        simenv.new_world()
+        s = Scheduler([], horizon=horizon, line_root=line_root, after_calls=after_calls)
+        result = harness(s)
+        s.run()
+        result()
+    simenv.new_world()
+    s = Scheduler(case["schedule"], horizon=horizon, line_root=line_root, after_calls=after_calls)
+    result = harness(s)
+    s.run()
+    return s, result()
+
+
 def replay_scheduler(case, **kw):
     """Scheduler for replaying ``case['schedule']`` at the granularity it was recorded at."""
     if case.get("line_level"):
